@@ -35,6 +35,20 @@ The `deserialize` method of the same classes is parsed by `DParser` (same princi
   an expression statement                                   DSExpr e
   `reader` may only occur in the positions above; no name that the method uses as a global (a class, an enum, int, bytes,
   range) or `reader` may be assigned anywhere in the method (an assignment would make it a local of the whole function).
+
+The `__init__` method of the same classes is parsed by `IParser` (same principles) into `iparams * list istmt` of coq/Model/RenderInit.v:
+  def __init__(self, *, a: T, b: U = None)                  [("a", false); ("b", true)]   (keyword-only parameters after `self, *`; the only
+                                                            default accepted is the literal None; annotations are not evaluated by a call)
+  self._x = e                                               ISetSelf "x" e              (x may not start with another underscore: name mangling)
+  a parameter name / self._x                                IVar / ISelf                (every other bare name is refused)
+  None, True / False, <int>, "<ASCII text>"                 INone, IBool, IInt, IStr
+  tuple(e), len(e)                                          ITuple, ILen                (refused when a parameter is called `tuple` / `len`:
+                                                            the call would not reach the builtin)
+  e is None, e is not None, a if c else b                   IIsNone, IIsNotNone, IIfElse
+  nothing else: no other statement, no decorator, no positional parameter, no *args / **kwargs.
+The read-only properties of the same classes (`getters_of`): every `@property def x(self): [docstring] return self._y` gives ("x", "y");
+  a method decorated with anything but `property` / `staticmethod` (a setter, a deleter), a property of another shape, or a
+  method that intercepts attribute access (__setattr__, __getattr__, __getattribute__, __delattr__) or `__slots__` is refused.
 """
 import ast
 
@@ -385,6 +399,143 @@ class DParser:
         return out
 
 
+class IParser:
+    """the `__init__` method -> iparams * list istmt (coq/Model/RenderInit.v)"""
+
+    def __init__(self, cls):
+        self.cls = cls
+        self.params = []
+
+    def fail(self, node, why):
+        raise Unparsed(self.cls, getattr(node, 'lineno', 0), ast.dump(node) if isinstance(node, ast.AST) else repr(node), why)
+
+    def slot(self, e):
+        """self._x -> x, else None"""
+        if isinstance(e, ast.Attribute) and isinstance(e.value, ast.Name) and e.value.id == 'self':
+            if len(e.attr) > 1 and e.attr[0] == '_' and e.attr[1] != '_':
+                return e.attr[1:]
+            self.fail(e, 'attribute of self that is not a single-underscore slot')
+        return None
+
+    def expr(self, e):
+        X = self.expr
+        if isinstance(e, ast.Constant):
+            v = e.value
+            if v is None:
+                return "INone"
+            if type(v) is bool:
+                return f"(IBool {'true' if v else 'false'})"
+            if type(v) is int:
+                return f"(IInt {cz(v)})"
+            if type(v) is str:
+                try:
+                    return f"(IStr {cs(v)})"
+                except ValueError as ex:
+                    self.fail(e, str(ex))
+            self.fail(e, 'constant')
+        if isinstance(e, ast.Name):
+            if e.id in self.params:
+                return f"(IVar {cs(e.id)})"
+            self.fail(e, 'a bare name that is not a parameter')
+        if isinstance(e, ast.Attribute):
+            x = self.slot(e)
+            if x is not None:
+                return f"(ISelf {cs(x)})"
+            self.fail(e, 'attribute')
+        if isinstance(e, ast.Call):
+            if e.keywords or not isinstance(e.func, ast.Name) or len(e.args) != 1 or isinstance(e.args[0], ast.Starred):
+                self.fail(e, 'call')
+            f = e.func.id
+            if f in ('tuple', 'len'):
+                if f in self.params:
+                    self.fail(e, f'call of {f} while a parameter has that name')
+                return f"({'ITuple' if f == 'tuple' else 'ILen'} {X(e.args[0])})"
+            self.fail(e, 'call')
+        if isinstance(e, ast.Compare):
+            if len(e.ops) != 1:
+                self.fail(e, 'chained comparison')
+            op, l, r = e.ops[0], e.left, e.comparators[0]
+            if isinstance(op, (ast.Is, ast.IsNot)) and isinstance(r, ast.Constant) and r.value is None:
+                return f"({'IIsNone' if isinstance(op, ast.Is) else 'IIsNotNone'} {X(l)})"
+            self.fail(e, 'comparison')
+        if isinstance(e, ast.IfExp):
+            return f"(IIfElse {X(e.body)} {X(e.test)} {X(e.orelse)})"
+        self.fail(e, 'expression')
+
+    def stmt(self, s):
+        if isinstance(s, ast.Assign) and len(s.targets) == 1 and s.type_comment is None:
+            x = self.slot(s.targets[0])
+            if x is None:
+                self.fail(s, 'assignment target')
+            return f"ISetSelf {cs(x)} {self.expr(s.value)}"
+        self.fail(s, 'statement')
+
+    def function(self, fn):
+        a = fn.args
+        if fn.decorator_list:
+            self.fail(fn, '__init__ is decorated')
+        if a.posonlyargs or a.vararg or a.kwarg or a.defaults or [x.arg for x in a.args] != ['self']:
+            self.fail(fn, 'signature of __init__')
+        ps = []
+        for k, d in zip(a.kwonlyargs, a.kw_defaults):
+            if d is None:
+                dflt = 'false'
+            elif isinstance(d, ast.Constant) and d.value is None:
+                dflt = 'true'
+            else:
+                self.fail(fn, f'default of {k.arg} is not None')
+            if k.arg == 'self' or k.arg in self.params:
+                self.fail(fn, f'parameter {k.arg} twice')
+            self.params.append(k.arg)
+            ps.append(f"({cs(k.arg)}, {dflt})")
+        body = fn.body[1:] if fn.body and is_doc(fn.body[0]) else fn.body
+        return "([" + "; ".join(ps) + "], [" + "; ".join(self.stmt(s) for s in body) + "])"
+
+
+
+ATTR_HOOKS = ('__setattr__', '__getattr__', '__getattribute__', '__delattr__', '__set__', '__get__')
+
+
+def getters_of(full, cd):
+    """the properties of class `cd` -> Coq term of type list (string * string): (property name, slot it returns)"""
+    def fail(node, why):
+        raise Unparsed(full, getattr(node, 'lineno', 0), ast.dump(node)[:600] if isinstance(node, ast.AST) else repr(node), why)
+    out, seen = [], set()
+    for s in cd.body:
+        if isinstance(s, (ast.Assign, ast.AnnAssign)):
+            ts = s.targets if isinstance(s, ast.Assign) else [s.target]
+            if any(isinstance(t, ast.Name) and t.id == '__slots__' for t in ts):
+                fail(s, '__slots__')
+        if isinstance(s, ast.AsyncFunctionDef):
+            fail(s, 'async method')
+        if not isinstance(s, ast.FunctionDef):
+            continue
+        decs = []
+        for d in s.decorator_list:
+            if not (isinstance(d, ast.Name) and d.id in ('property', 'staticmethod')):
+                fail(s, 'decorator')
+            decs.append(d.id)
+        if s.name in ATTR_HOOKS:
+            fail(s, 'attribute hook')
+        if s.name in seen:
+            fail(s, f'{s.name} defined twice')
+        seen.add(s.name)
+        if 'property' not in decs:
+            continue
+        a = s.args
+        if decs != ['property'] or a.posonlyargs or a.vararg or a.kwarg or a.defaults or a.kwonlyargs or [x.arg for x in a.args] != ['self']:
+            fail(s, 'property signature')
+        body = s.body[1:] if s.body and is_doc(s.body[0]) else s.body
+        if len(body) == 1 and isinstance(body[0], ast.Return):
+            v = body[0].value
+            if isinstance(v, ast.Attribute) and isinstance(v.value, ast.Name) and v.value.id == 'self' \
+                    and len(v.attr) > 1 and v.attr[0] == '_' and v.attr[1] != '_':
+                out.append(f"({cs(s.name)}, {cs(v.attr[1:])})")
+                continue
+        fail(s, 'property body')
+    return "[" + "; ".join(out) + "]"
+
+
 def open_enums_of(mods):
     """names of the IntEnum classes declared `class E(IntEnum, metaclass=ProtocolEnumMeta)` (E(<any int>) succeeds)"""
     out = set()
@@ -436,6 +587,8 @@ def parse_sources(sources):
     enums = enums_of(mods)
     opened = open_enums_of(mods) & set(enums)
     classes, dclasses, dunparsed = [], [], []
+    iclasses, iunparsed = [], []
+    gclasses, gunparsed = [], []
 
     def walk(cd, prefix):
         full = prefix + cd.name
@@ -455,6 +608,22 @@ def parse_sources(sources):
                 dclasses.append((full, DParser(full, enums, opened).function(dfns[0])))
             except Unparsed as u:
                 dunparsed.append(u)
+        ifns = [s for s in cd.body if isinstance(s, ast.FunctionDef) and s.name == '__init__']
+        if len(ifns) > 1:
+            iunparsed.append(Unparsed(full, cd.lineno, full, '__init__ defined twice'))
+        elif ifns:
+            try:
+                iclasses.append((full, IParser(full).function(ifns[0])))
+            except Unparsed as u:
+                iunparsed.append(u)
+            except ValueError as ex:          # a name that is not ASCII
+                iunparsed.append(Unparsed(full, ifns[0].lineno, full, str(ex)))
+            try:
+                gclasses.append((full, getters_of(full, cd)))
+            except Unparsed as u:
+                gunparsed.append(u)
+            except ValueError as ex:
+                gunparsed.append(Unparsed(full, cd.lineno, full, str(ex)))
         for s in cd.body:
             if isinstance(s, ast.ClassDef):
                 walk(s, full + '.')
@@ -462,7 +631,8 @@ def parse_sources(sources):
         for s in tree.body:
             if isinstance(s, ast.ClassDef):
                 walk(s, '')
-    return dict(classes=classes, unparsed=unparsed, enums=enums, dclasses=dclasses, dunparsed=dunparsed)
+    return dict(classes=classes, unparsed=unparsed, enums=enums, dclasses=dclasses, dunparsed=dunparsed, iclasses=iclasses, iunparsed=iunparsed,
+                gclasses=gclasses, gunparsed=gunparsed)
 
 
 def coq_parsed(classes):
@@ -488,4 +658,13 @@ if __name__ == '__main__':
         print(n, '\n   ', t)
     for n, t in r['dclasses']:
         print(n, '(deserialize)\n   ', t)
-    print(len(r['classes']), 'classes,', len(r['unparsed']), 'unparsed;', len(r['dclasses']), 'deserialize methods,', len(r['dunparsed']), 'unparsed')
+    for u in r['iunparsed']:
+        print('UNPARSED(__init__)', u)
+    for n, t in r['iclasses']:
+        print(n, '(__init__)\n   ', t)
+    for u in r['gunparsed']:
+        print('UNPARSED(properties)', u)
+    for n, t in r['gclasses']:
+        print(n, '(properties)\n   ', t)
+    print(len(r['classes']), 'classes,', len(r['unparsed']), 'unparsed;', len(r['dclasses']), 'deserialize methods,', len(r['dunparsed']), 'unparsed;',
+          len(r['iclasses']), '__init__ methods,', len(r['iunparsed']), 'unparsed')
